@@ -751,6 +751,9 @@ def profile_coordinates(point1, point2, size, extra_coords=None):
     """
     if size <= 0:
         raise ValueError("Invalid profile size '{}'. Must be > 0.".format(size))
+    # Calculate in floating point even if the points are given as integers
+    # (narrow integer types would lose precision or overflow)
+    point1, point2 = (np.asarray(i, dtype="float64") for i in (point1, point2))
     diffs = [i - j for i, j in zip(point2, point1)]
     separation = np.hypot(*diffs)
     distances = np.linspace(0, separation, size)
